@@ -498,6 +498,52 @@ func runC12(c *Ctx, r *Report) {
 		}
 		r.Tables["optional_entry_field_derefs"] = []string{fmt.Sprintf("%d", nuse)}
 	}
+	r.Doc("R-C12.12", "in the decode closure a success carries a value: no function returning (value, error) returns a literal nil value together with a nil error (a reader that answers 'nothing, no error' for an absent block hands its callers a nil they dereference)")
+	{
+		nret := 0
+		var fl []*Fn
+		for fn := range decodeScope(c) {
+			fl = append(fl, fn)
+		}
+		sort.Slice(fl, func(i, j int) bool { return fl[i].Name < fl[j].Name })
+		for _, fn := range fl {
+			if fn.Body == nil || fn.Type == nil || fn.Type.Results == nil {
+				continue
+			}
+			var rt []types.Type
+			for _, f := range fn.Type.Results.List {
+				k := len(f.Names)
+				if k == 0 {
+					k = 1
+				}
+				for i := 0; i < k; i++ {
+					rt = append(rt, p.TypeOf(fn, f.Type))
+				}
+			}
+			if len(rt) != 2 || !isErrorType(rt[1]) {
+				continue
+			}
+			switch rt[0].Underlying().(type) {
+			case *types.Pointer, *types.Interface:
+			default:
+				continue
+			}
+			walkNoLit(fn.Body, func(n ast.Node) bool {
+				rs, ok := n.(*ast.ReturnStmt)
+				if !ok || len(rs.Results) != 2 {
+					return true
+				}
+				nret++
+				r.Check(!(isNilIdent(rs.Results[0]) && isNilIdent(rs.Results[1])), "R-C12.12", r.Key("R-C12.12", fn, "nil-nil-return", ""), rs.Pos(),
+					"the return does not answer 'no value, no error'",
+					fn.Name+" returns a nil value with a nil error: its callers on the decode path test the error and then use the value — a nil dereference on the fetch goroutine for a block the store does not hold")
+				return true
+			})
+		}
+		r.Floor("R-C12.12", "returns of (value, error) functions in the decode closure", nret, 10)
+	}
+	r.Doc("R-C12.13", "no channel can be closed twice: a close sits neither in a loop the channel outlives nor in a closure that several validators or calls run, unless under a sync.Once (the second close panics on a goroutine nothing recovers — a history with two refused blocks takes the process down)")
+	channelsClosedOnce(c, r, "R-C12.13")
 	r.Doc("R-C12.8", "verifying a decoded entry keeps no state between calls (adopted from C07: a remembered failed key parse is a nil the next verification dereferences)")
 	importRules(c, r, "C07", []string{"R-C07.6"}, "R-C12.8", 0) // an expected-zero rule: nothing to adopt on a clean tree
 	r.Doc("R-C12.7", "on the decode path every error result is examined before the next step overwrites it: a failed step never hands its zero values on as if it had succeeded")
